@@ -424,5 +424,7 @@ def namespace():
         'maximum': Builtin('np.maximum', np_minmax(False)), 'absolute': Builtin('np.absolute', np_abs),
         'round': Builtin('np.round', lambda I, a, k: nd_attr(I, a[0], 'round').fn(I, [], {}) if isinstance(a[0], NDArr) else round_half_even(z3_of(a[0]))),
         'float64': Builtin('np.float64', lambda I, a, k: NpScalar(a[0])),
+        # scalar type classes for isinstance(): the model's numpy scalar is a float64 (np.floating, np.number), never an np.integer
+        'integer': BuiltinClass('integer'), 'floating': BuiltinClass('floating'),
     }
     return Namespace('numpy', m)
